@@ -127,7 +127,7 @@ impl Clone for Sys {
 
 /// Run `f` with a tokio context and the spawn sink installed; the event-sending futures the
 /// fetcher spawns are polled to completion right away (they only push into this copy's channel).
-fn with_ctx<R>(f: impl FnOnce() -> R) -> R {
+pub(crate) fn with_ctx<R>(f: impl FnOnce() -> R) -> R {
     thread_local! {
         static RT: tokio::runtime::Runtime = tokio::runtime::Builder::new_current_thread().build().expect("runtime");
     }
@@ -522,6 +522,98 @@ impl System for Sys {
     }
 }
 
+/// The same rules one level up, where advertisements actually arrive: a real node-flavour `SwarmDriver` handling
+/// `Cmd::Replicate` (`add_keys_to_replication_fetcher`: sender vetting, the store's view of what is held, the fetcher, the
+/// event that starts the fetches). A fresh driver per case: 6 ranked keys, every held subset of up to 3 of them stored through
+/// the real `PutLocalRecord` handling, the responsible range set after rank 1 / 3 / 5 (or not at all), and every non-empty list
+/// over the 6 keys (each once as Chunk) from a routing-table neighbour. Judged from the `KeysToFetchForReplication` events: nothing held is
+/// fetched; of a list that arrived with more than one key only keys within the range are fetched; every key that is not held and
+/// (for multi-key lists) within the range is fetched (6 keys stay below the parallel limit).
+fn driver_layer(run: &Run) {
+    use crate::driver_rig::DriverRig;
+    use ant_networking::verif_hooks::LocalSwarmCmd;
+    let u = build_universe(6, "c08-driver", true);
+    let n = u.keys.len();
+    let value = |i: usize| -> Vec<u8> { [&[0x91u8, 1][..], format!("c08 driver {i}").as_bytes()].concat() };
+    let held_sets: Vec<u32> = mc_core::enumerate::subsets(n, 0, run.pick(2, 3));
+    let gaps: Vec<Option<usize>> = vec![None, Some(1), Some(3), Some(5)];
+    let jobs: Vec<(u32, Option<usize>)> = held_sets.iter().flat_map(|h| gaps.iter().map(move |g| (*h, *g))).collect();
+    let next = std::sync::atomic::AtomicUsize::new(0);
+    let cases = std::sync::atomic::AtomicU64::new(0);
+    std::thread::scope(|sc| {
+        for _ in 0..mc_core::workers() {
+            sc.spawn(|| loop {
+                let j = next.fetch_add(1, std::sync::atomic::Ordering::Relaxed);
+                if j >= jobs.len() || mc_core::budget_spent() {
+                    break;
+                }
+                let (held, gap) = jobs[j];
+                for list_mask in 1u32..(1 << n) {
+                    let root = crate::c01::fresh_scratch("c08-driver");
+                    let mut rig = DriverRig::new_node(1, &root);
+                    for (i, h) in u.holders.iter().enumerate() {
+                        if !rig.driver.verif_add_peer(*h, format!("/ip4/127.0.0.1/udp/{}/quic-v1", 42000 + i).parse().unwrap()) {
+                            run.machinery_error("C08 driver layer: routing table insert failed");
+                        }
+                    }
+                    for i in 0..n {
+                        if held & (1 << i) != 0 {
+                            let record = libp2p::kad::Record { key: u.keys[i].clone(), value: value(i), publisher: None, expires: None };
+                            let _ = rig.handle_local(LocalSwarmCmd::PutLocalRecord { record });
+                        }
+                    }
+                    rig.settle();
+                    if let Some(g) = gap {
+                        rig.driver.verif_set_responsible_range(u.ranges[g]);
+                    }
+                    rig.drain_events();
+                    rig.events.clear();
+                    let list: Vec<(NetworkAddress, RecordType)> = (0..n).filter(|i| list_mask & (1 << i) != 0).map(|i| (addr(&u.keys[i]), RecordType::Chunk)).collect();
+                    let list_len = list.len();
+                    let desc = serde_json::json!({"engine": "driver-layer", "held": (0..n).filter(|i| held & (1 << i) != 0).collect::<Vec<_>>(), "range_after_rank": gap, "list": (0..n).filter(|i| list_mask & (1 << i) != 0).collect::<Vec<_>>()});
+                    run.case(desc.to_string().as_bytes(), list_len > 1 && gap.is_some());
+                    cases.fetch_add(1, std::sync::atomic::Ordering::Relaxed);
+                    let driver = &mut rig.driver;
+                    let holder = NetworkAddress::from_peer(u.holders[0]);
+                    let _ = rig.exec.capture(None, "replicate", || driver.verif_handle_replicate(holder, list));
+                    rig.settle();
+                    rig.drain_events();
+                    let mut issued: BTreeSet<usize> = BTreeSet::new();
+                    while let Some(ev) = rig.events.pop_front() {
+                        if let NetworkEvent::KeysToFetchForReplication(ks) = ev {
+                            for (_, k) in ks {
+                                if let Some(i) = u.keys.iter().position(|x| *x == k) {
+                                    issued.insert(i);
+                                }
+                            }
+                        }
+                    }
+                    for i in 0..n {
+                        let in_list = list_mask & (1 << i) != 0;
+                        let is_held = held & (1 << i) != 0;
+                        let in_range = gap.map(|g| i < g).unwrap_or(true);
+                        let got = issued.contains(&i);
+                        if got && (!in_list || is_held) {
+                            run.violation("not-held", "driver-layer", format!("k{i} was fetched although it is {} ({desc})", if is_held { "held" } else { "not in the list" }), desc.clone());
+                        }
+                        if got && list_len > 1 && !in_range {
+                            let new_in_list = (0..n).filter(|x| list_mask & (1 << x) != 0 && held & (1 << x) == 0).count();
+                            let trig = if new_in_list == 1 { "driver-layer/single-new-key-in-multi-key-list" } else { "driver-layer" };
+                            run.violation("in-range-from-multi-key-list", trig, format!("k{i}, taken from a {list_len}-key list, is outside the responsible range (after rank {}) and was fetched ({desc})", gap.unwrap()), desc.clone());
+                        }
+                        if !got && in_list && !is_held && (in_range || list_len == 1) {
+                            run.violation("progress", "driver-layer", format!("k{i} is advertised, not held and {} but no fetch was started ({desc})", if list_len == 1 { "came as a single-key list" } else { "within the range" }), desc.clone());
+                        }
+                    }
+                    drop(rig);
+                    let _ = std::fs::remove_dir_all(&root);
+                }
+            });
+        }
+    });
+    run.extra("driver_layer", serde_json::json!({"cases": cases.load(std::sync::atomic::Ordering::Relaxed), "held_sets": held_sets.len(), "ranges": gaps.len(), "lists_per_case": (1u32 << n) - 1}));
+}
+
 pub fn main(tier: Option<&str>) {
     let run = Run::new("C08", "model_checking", tier);
     run.rule(
@@ -529,7 +621,9 @@ pub fn main(tier: Option<&str>) {
          versions), 3 holders, single-key advertisements and 7 fixed multi-key lists, Arrive / EarlyComplete / SetRange (3 gaps) / \
          NodeFull (2 values) / Age(21 s, 901 s) / Tick, depth 4(5); universe B = 24 keys with bulk lists, depth 4(6), for the parallel \
          limit. State key = queue and in-flight sets with the exact aging applied since creation, held set, range, farthest. Bounded \
-         liveness (4 fair rounds) is run from every reachable state of universe A.",
+         liveness (4 fair rounds) is run from every reachable state of universe A. Driver layer: a fresh real SwarmDriver per case, every held \
+         subset of <=2(3) of 6 ranked keys x range {unset, after rank 1, 3, 5} x every non-empty list over the 6 keys from a routing-table neighbour, \
+         judged from the KeysToFetchForReplication events.",
     );
     run.assume("time moves only through Age steps (hook moves every stored deadline into the past); raw instants never enter the state key");
     run.assume("the parallel-fetch limit (20) and the two timeouts (20 s, 900 s) are pinned in the harness");
@@ -548,5 +642,6 @@ pub fn main(tier: Option<&str>) {
         BfsOpts { max_depth: run.pick(4, 6), wall_cap: Some(Duration::from_secs(run.pick(30, 900))), state_cap: None, label: "universe-B(24 keys)".into() },
         vec![Sys::new(ub, true)],
     );
+    driver_layer(&run);
     run.finish();
 }
